@@ -1,6 +1,7 @@
 package main
 
 import (
+	"fmt"
 	"go/ast"
 	"sort"
 	"strings"
@@ -39,6 +40,45 @@ func factsPrecompiles() {
 		}
 	}
 	sort.Slice(out, func(i, j int) bool { return out[i][0] < out[j][0] })
+	// in which order a spend by grant consults the authorization and runs the message: top-level statements of the method
+	var order [][2]string
+	for _, m := range []string{"Delegate", "Undelegate", "Redelegate", "CancelUnbondingDelegation"} {
+		v := "missing"
+		if fd := funcDecl("precompiles/staking/tx.go", "Precompile", m); fd != nil {
+			check, accept, run, update := -1, -1, -1, -1
+			for i, st := range fd.Body.List {
+				t := src(st)
+				if ifs, ok := st.(*ast.IfStmt); ok && strings.TrimSpace(src(ifs.Cond)) == "!isCallerOrigin" && ifs.Else == nil {
+					// statements of the guarded block, in order; each must bail out on error
+					for _, in := range ifs.Body.List {
+						u := src(in)
+						switch {
+						case strings.Contains(u, "authorization.CheckAuthzAndAllowanceForGranter(") && check < 0:
+							check = i
+						case strings.Contains(u, "stakeAuthz.Accept(ctx, msg)") && strings.Contains(u, "err != nil") && strings.Contains(u, "return nil, err") && accept < 0:
+							accept = i
+						case strings.Contains(u, "p.UpdateStakingAuthorization(") && strings.Contains(u, "return nil, err") && update < 0:
+							update = i
+						}
+					}
+					continue
+				}
+				if strings.Contains(t, "msgSrv.") && strings.Contains(t, "sdk.WrapSDKContext(ctx), msg)") && run < 0 {
+					run = i
+				}
+			}
+			switch {
+			case check >= 0 && accept >= check && run > accept && update > run:
+				v = "check; accept; run; update"
+			case check >= 0 && run > check && update > run && accept < 0:
+				v = "check; run; update(accept)"
+			default:
+				v = fmt.Sprintf("unrecognised(check=%d accept=%d run=%d update=%d)", check, accept, run, update)
+			}
+		}
+		order = append(order, [2]string{m, v})
+	}
+	emitPairs("stakingGrantSpendOrder", order, "per staking precompile method that can spend by grant: the order of CheckAuthzAndAllowanceForGranter, StakeAuthorization.Accept, the message server and UpdateStakingAuthorization among the method's top-level statements")
 	emitPairs("precompileBalanceSync", out, "per coin-moving precompile transaction method: how the cached EVM balances are brought in step with the bank after the Cosmos message (sync = StateDB.SyncBalances, manual-mirror = AddBalance/SubBalance of one account)")
 
 	// Run() of every stateful precompile commits the StateDB on entry
